@@ -19,24 +19,38 @@ fn sentinel() -> Vec<u8> {
     v
 }
 
-fn setup_input(dir: &Path, kind: &str, valid_doc: &[u8]) -> PathBuf {
+fn setup_input(dir: &Path, kind: &str, valid_doc: &[u8], variant: usize) -> PathBuf {
     let p = dir.join("in.xml");
     match kind {
         "valid" => std::fs::write(&p, valid_doc).unwrap(),
-        "malformed" => std::fs::write(&p, b"<a><b></a>").unwrap(),
-        "noelement" => std::fs::write(&p, b"<?xml version=\"1.0\"?><!-- nothing here -->").unwrap(),
-        "nonutf8" => std::fs::write(&p, b"<a>\xff\xfe</a>").unwrap(),
+        "malformed" => std::fs::write(&p, [&b"<a><b></a>"[..], b"<a x=\"1\" x=\"2\"/>", b"<a><!-- open", b"<a></a></a>"][variant % 4]).unwrap(),
+        "noelement" => std::fs::write(&p, [&b"<?xml version=\"1.0\"?><!-- nothing here -->"[..], b"", b"  \n\t\n", b"only text"][variant % 4]).unwrap(),
+        "nonutf8" => std::fs::write(&p, [&b"<a>\xff\xfe</a>"[..], b"\xff\xfe<\x00a\x00/\x00>\x00", b"<a b=\"\xc3\x28\"/>"][variant % 3]).unwrap(),
         "directory" => std::fs::create_dir_all(&p).unwrap(),
         _ => {} // missing
     }
     p
 }
 
-fn setup_output(dir: &Path, kind: &str) -> Option<PathBuf> {
+/// returns the output path and the old content of an existing output file
+fn setup_output(dir: &Path, kind: &str, input: &Path, variant: usize) -> (Option<PathBuf>, Vec<u8>) {
+    let p = setup_output_path(dir, kind, input, variant);
+    let old = match (&p, kind) {
+        (Some(p), "existing") => std::fs::read(p).unwrap_or_default(),
+        _ => Vec::new(),
+    };
+    (p, old)
+}
+
+fn setup_output_path(dir: &Path, kind: &str, input: &Path, variant: usize) -> Option<PathBuf> {
     match kind {
         "stdout" => None,
         "newfile" => Some(dir.join("out.rs")),
         "existing" => {
+            // every third time the existing output file is the input file itself
+            if variant % 3 == 2 && input.is_file() {
+                return Some(input.to_path_buf());
+            }
             let p = dir.join("out.rs");
             std::fs::write(&p, sentinel()).unwrap();
             Some(p)
@@ -50,7 +64,7 @@ fn setup_output(dir: &Path, kind: &str) -> Option<PathBuf> {
     }
 }
 
-fn file_state(p: &Option<PathBuf>, rendered: &Option<String>) -> String {
+fn file_state(p: &Option<PathBuf>, rendered: &Option<String>, old: &[u8], existed: bool) -> String {
     match p {
         None => "absent".into(),
         Some(p) => {
@@ -59,7 +73,7 @@ fn file_state(p: &Option<PathBuf>, rendered: &Option<String>) -> String {
             }
             match std::fs::read(p) {
                 Err(_) => "absent".into(),
-                Ok(b) if b == sentinel() => "old".into(),
+                Ok(b) if existed && b == old => "old".into(),
                 Ok(b) if b.is_empty() => "truncated".into(),
                 Ok(b) => match rendered {
                     Some(r) if b == format!("{}{}", HEADER, r).as_bytes() => "header+rendering".into(),
@@ -76,16 +90,18 @@ fn strace_event(line: &str, input: &Path, output: &Option<PathBuf>, outfd: &mut 
     if let Some(r) = rest.strip_prefix("openat(") {
         let ret_ok = !r.rsplit_once("= ").map(|x| x.1.trim_start().starts_with('-')).unwrap_or(true);
         let path = r.split('"').nth(1).unwrap_or("");
-        if Path::new(path) == input {
-            return Some(json!({"ev": "OpenInput", "ok": ret_ok}));
-        }
+        let writing = r.contains("O_WRONLY") || r.contains("O_CREAT") || r.contains("O_RDWR");
         if let Some(o) = output {
-            if Path::new(path) == o.as_path() && (r.contains("O_WRONLY") || r.contains("O_CREAT") || r.contains("O_RDWR")) {
+            // (the output path may be the input path itself: the flags tell the two opens apart)
+            if Path::new(path) == o.as_path() && writing {
                 if ret_ok {
                     *outfd = r.rsplit_once("= ").map(|x| x.1.trim().to_string());
                 }
                 return Some(json!({"ev": "CreateOut", "ok": ret_ok}));
             }
+        }
+        if Path::new(path) == input && !writing {
+            return Some(json!({"ev": "OpenInput", "ok": ret_ok}));
         }
         return None;
     }
@@ -129,8 +145,8 @@ pub fn replay(a: &Args) {
         let _ = std::fs::remove_dir_all(&dir);
         std::fs::create_dir_all(&dir).unwrap();
         let valid = &docs[ci % docs.len()];
-        let input = setup_input(&dir, c["input"].as_str().unwrap(), valid);
-        let output = setup_output(&dir, c["out"].as_str().unwrap());
+        let input = setup_input(&dir, c["input"].as_str().unwrap(), valid, ci / 7);
+        let (output, old) = setup_output(&dir, c["out"].as_str().unwrap(), &input, ci / 5);
         let derive = unchars(&c["args"]["derive"]);
         let mut args: Vec<String> = vec!["--parser".into(), c["args"]["parser"].as_str().unwrap().into(),
                                          "--derive".into(), derive.clone(), "--sort".into(), c["args"]["sort"].as_str().unwrap().into(),
@@ -170,7 +186,7 @@ pub fn replay(a: &Args) {
                 _ => format!("other:{}", String::from_utf8_lossy(&out.stdout).chars().take(200).collect::<String>()),
             }
         };
-        let actual = json!({"exit": exit, "stdout": stdout_state, "stderr": !out.stderr.is_empty(), "file": file_state(&output, &rendered)});
+        let actual = json!({"exit": exit, "stdout": stdout_state, "stderr": !out.stderr.is_empty(), "file": file_state(&output, &rendered, &old, c["out"] == "existing")});
         let expected = json!({"exit": c["exit"], "stdout": c["stdout"], "stderr": c["stderr"], "file": c["file"]});
         if actual != expected {
             mismatches.push(json!({"kind": "cli", "class": "observable", "case": c, "args": args, "expected": expected, "actual": actual,
